@@ -287,7 +287,7 @@ def fixed_stream(kind, base, n):
 def cases(rng, tier):
     thorough = tier == "thorough"
     # --- in-process lines: many, cheap
-    nu = 30000 if thorough else 3000
+    nu = 20000 if thorough else 3000
     for i in range(nu):
         conc = CONC if rng.chance(5, 6) else 0
         yield scenario(rng, "U", "rw", conc, wild=rng.chance(1, 2))
@@ -304,7 +304,7 @@ def cases(rng, tier):
             for q in range(p + 1, len(s), 3):
                 yield mkline("U", "rw", CONC, 0, 3, cut(s, [p, q]))
     # --- end-to-end lines
-    ne = 1000 if thorough else 110
+    ne = 700 if thorough else 110
     chain = [3]
     for i in range(ne):
         kind = "rw" if rng.chance(2, 3) else "acl"
@@ -517,12 +517,13 @@ def classify(l, impl, why):
     return None
 
 
-SHRINK_BUDGET = [60]
+SHRINK_BUDGET = [25]
 
 
 def shrink(l):
-    # bounded: most failing cases of a run are instances of one class; a replay need not be minimal
-    if SHRINK_BUDGET[0] <= 0:
+    # bounded: most failing cases of a run are instances of one class; a replay need not be minimal.
+    # End-to-end lines are not shrunk at all: every candidate costs a scenario with requests left waiting (timeouts).
+    if SHRINK_BUDGET[0] <= 0 or l.startswith("E "):
         return
     SHRINK_BUDGET[0] -= 1
     try:
